@@ -356,6 +356,8 @@ def run(ctx):
       functions=[TimingCorrectingCaptionList._update_last_batch], setup_interp=setup, crosscheck=False)
     P("scc.fix_last_captions_without_ending", last_captions, functions=[fix_last_captions_without_ending],
       setup_interp=setup, crosscheck=False, fsem="uf")
+    import props.C06_commands as CM
+    CM.prove_commands(ctx)
     ctx.bounded("programs", "pop-on programs of three captions: drop / non-drop timecode x single / doubled control "
                 "codes x inline / separate EDM x inter-line gaps {1,4,5,6,30} frames squared x offsets {0,1,45} s, "
                 "against exact-rational reference timing (start at the EOC word, end at the next EDM/EOC, gaps under "
